@@ -5,8 +5,9 @@ CONSTANTS
   Dev_h13 = TRUE
   Dev_t127 = TRUE
   Dev_mdict = TRUE
+  Dev_osrep = TRUE
   Dev_dparr = TRUE
-  DocIds = {"D1", "D2", "D3", "D4"}
+  DocIds = {"D1", "D2", "D3", "D4", "D5", "D6"}
   V2Lens = {40, 128}
   V4Stm = {"RC4", "AES128", "Identity"}
   V4Str = {"RC4", "AES128", "Identity"}
